@@ -382,10 +382,13 @@ theorem C06_gen_object_laws_hold_in_the_grid_model : PropLaws (propOpsGrid : Pro
     with `H = objKernelGrid ..`: the regenerated kernel of the wavelength of channel `c` and of the distance element `d` of the distances
     tensor (for 'back and forth' the product of the kernels of the zero-mode distance and of the way back), WITHOUT the aperture, and `A` the
     aperture in force: the constructor's, changed only by the `set_aperture` calls of `pre` (`apGridStep`).  Nothing the earlier calls cached
-    enters: the kernel buffer of the object is read on a hit, and the slot holds exactly this kernel -/
+    enters: the kernel buffer of the object is read on a hit, and the slot holds exactly this kernel.
+    Domain: `5 ≤ w` (torch `zero_pad` reads a 2-D field narrower than 5 as channels-last, `Layout.Accepts` of C08: a propagator with such a
+    resolution raises on every call), `resolution_factor = 1` (the regenerated kernel dispatch is the one for scale 1), non-negative channel
+    and plane ids in range (Python's negative ids are not modelled), no `get_kernels` in the list (an observer of the cache) -/
 theorem C06_gen_object_documented_model_every_call_list (a : PropArgs (Ten ℝ) ℝ) (hp0 : Heap (Ten ℝ)) (o : PropObj (Ten ℝ) ℝ) (h' : Heap (Ten ℝ))
     (hi : pInit propOpsGrid a hp0 = some (o, h')) (hp : ∀ p, a.laser_channel_power = some p → p < hp0.size)
-    {h w : Nat} (hres : a.resolution = [(h : Int), (w : Int)]) (hrf : a.rf = 1)
+    {h w : Nat} (hres : a.resolution = [(h : Int), (w : Int)]) (hw5 : 5 ≤ w) (hrf : a.rf = 1)
     (hty : a.propagator_type = "forward" ∨ a.propagator_type = "back and forth")
     (hme : a.method = "conventional" ∨ a.method = "multi-color")
     (kern : ℝ → ℝ → CGrid ℝ (2 * h) (2 * w))
